@@ -142,7 +142,7 @@ def _gen_request(draws, spec, bundle, idx, profile, want_mut, tier="quick",
     if req.variant == "validation":
         where = op.sel
         where.insert(rs.below(len(where) + 1, "bad_at"), _bad_field())
-    text = render(op, rs.below(3, "layout"))
+    text = render(op, rs.below(4, "layout"))
     req.op = op
     req.variables = dict(op.variables)
     req.operation_name = op.operation_name
@@ -408,6 +408,7 @@ def run_case(draws, prop, tier="quick"):
             res.count("probe:merged_field_groups", e.merged_groups)
             res.count("probe:fragment_applied", e.frag_applied)
             res.count("probe:fragment_rejected", e.frag_rejected)
+            res.count("fired:F1c_argument_coercion_error", e.arg_errors)
             if e.crash:
                 res.count("probe:crash_expected")
             for k, v in req.faults.items():
